@@ -78,6 +78,9 @@ type ltsRun struct {
 	closes   []string
 	waitFor  time.Duration
 	peerShut bool
+	lg       *c07log // the client's logger: synchronisation points (write about to start, KeepAlive handled)
+	g        *gate   // lets the peer stop reading what the client writes
+	pending  []byte  // rest of a frame of which the peer has sent only a part (pspart / psrest)
 	outLimit int // -1 = unlimited; otherwise the number of bytes the peer still reads before it vanishes
 }
 
@@ -102,7 +105,13 @@ func (r *ltsRun) peerReader() {
 			return
 		}
 		// one byte at a time: a Read that is already blocked when a budget is set must not overshoot it
-		k, err := r.srv.Read(chunk[:1])
+		var k int
+		var err error
+		if r.g != nil {
+			k, err = r.g.Read(chunk[:1])
+		} else {
+			k, err = r.srv.Read(chunk[:1])
+		}
 		if k > 0 {
 			buf = append(buf, chunk[:k]...)
 			r.mu.Lock()
@@ -218,7 +227,8 @@ func (r *ltsRun) play(ops []string) string {
 		p := strings.Split(op, ":")
 		switch p[0] {
 		case "new":
-			opts := []ClientOpt{WithLogger(nil)}
+			r.lg = &c07log{}
+			opts := []ClientOpt{WithLogger(r.lg)}
 			if p[1] == "0" {
 				opts = append(opts, WithVersion(Version1_0_1))
 			}
@@ -228,7 +238,44 @@ func (r *ltsRun) play(ops []string) string {
 			r.c = NewClient(opts...)
 			r.cli, r.srv = net.Pipe()
 			r.peer = &vpeer{c: r.srv}
+			r.g = newGate(r.srv)
 			go r.peerReader()
+		case "pstall":
+			r.g.stall()
+		case "presume":
+			r.g.resume()
+		case "pspart":
+			typ := atoi(p[2])
+			tok, _ := strconv.ParseUint(p[4], 10, 64)
+			b := vframe{ver: 1, typ: typ, id: r.resolveID(p[3], toks), payload: ltsPayload(typ, tok)}.bytes()
+			k := atoi(p[1])
+			if k > len(b) {
+				k = len(b)
+			}
+			r.peerSend(b[:k])
+			r.pending = b[k:]
+		case "psrest":
+			r.peerSend(r.pending)
+			r.pending = nil
+		case "ws":
+			typ := MessageType(atoi(p[1]))
+			if !r.waitUntil(func() bool {
+				r.lg.mu.Lock()
+				defer r.lg.mu.Unlock()
+				for _, h := range r.lg.sending {
+					if h.typ == typ {
+						return true
+					}
+				}
+				return false
+			}, nil) {
+				stuck = i
+			}
+		case "kh":
+			n := atoi(p[1])
+			if !r.waitUntil(func() bool { return r.lg.nHandled() >= n }, nil) {
+				stuck = i
+			}
 		case "start":
 			r.started = true
 			go func() {
@@ -433,6 +480,9 @@ func (r *ltsRun) cleanup() {
 	}()
 	for _, lc := range r.callers {
 		lc.cancel()
+	}
+	if r.g != nil {
+		r.g.resume()
 	}
 	r.srv.Close()
 	r.cli.Close()
